@@ -31,7 +31,7 @@ NS = {
 }
 ALL_FEATURES = ["colruns", "rowruns", "s-single", "s-noc", "paragraphs", "spans", "emptyp", "stored", "utf16",
                 "latin1", "colstyle", "trailing-empty-run", "annotations", "embedded-object", "links", "header-rows", "row-groups",
-                "covered-cells"]
+                "covered-cells", "no-value-type"]
 
 
 def _escape(text):
@@ -117,6 +117,10 @@ def _cell_xml(text, features, used, attribute=""):
         used.add("office:annotation")
         body = ('<office:annotation><dc:date>2020-01-01T00:00:00</dc:date><text:p>a comment</text:p><text:p>'
                 "on two lines</text:p></office:annotation>") + body
+    if "no-value-type" in features:
+        # office:value-type is optional: a cell with paragraphs is a text cell without it
+        used.add("no-value-type")
+        return "<table:table-cell%s>" % attribute + body + "</table:table-cell>"
     return '<table:table-cell%s office:value-type="string">' % attribute + body + "</table:table-cell>"
 
 
